@@ -499,11 +499,11 @@ fn mk_viol(class: &str, sig: String, msg: String) -> Viol {
 fn sync_content_from_disk(it: &mut Interp, deletion: bool) {
     let d = disk::scan(&it.cache);
     for cf in &d.content {
-        if cf.kind == disk::FileKind::Regular && cf.well_placed && cf.digest_ok {
+        if (cf.kind == disk::FileKind::Regular || cf.kind == disk::FileKind::Symlink) && cf.well_placed && cf.digest_ok {
             let known = matches!(it.m.content.get(&cf.rel), Some(c) if c.state == CState::Pristine);
             if !known {
                 if let Ok(b) = std::fs::read(it.cache.join(&cf.rel)) {
-                    it.m.content.insert(cf.rel.clone(), Content { orig: b, state: CState::Pristine, is_link: false });
+                    it.m.content.insert(cf.rel.clone(), Content { orig: b, state: CState::Pristine, is_link: cf.kind == disk::FileKind::Symlink });
                 }
             }
         }
@@ -1315,9 +1315,14 @@ fn gen_c04(rng: &mut Rng, r: u64) -> Value {
             prelude.push(json!({"k":"api","op":"write","entry":"opts","key":0,"val":1,"opts":{"time":(10 + i).to_string(),"meta":{"pad":"p".repeat(pad)}},"bin":fp.0,"mode":fp.1}));
         }
     }
-    let mut v = match rng.below(5) {
+    let mut v = match rng.below(6) {
         0 => json!({"k":"api","op":"remove","key":0}),
         1 => json!({"k":"api","op":"remove_opts","fully":false,"key":0}),
+        2 => {
+            // a keyed link_to is a keyed write too: the symlink must be in place before the index record
+            prelude.push(json!({"k":"env","act":"write_file","path":"$T/linked","val":0}));
+            json!({"k":"api","op":"link_to","entry":*rng.pick(&["fn","open"]),"key":0,"target":"$T/linked"})
+        }
         _ => victim_write(rng, true, 0, len, 0),
     };
     v["mode"] = json!(f.1);
@@ -1355,7 +1360,7 @@ fn gen_c13(rng: &mut Rng, r: u64) -> Value {
             prelude.push(json!({"k":"api","op":"write","entry":"opts","key":0,"val":0,"opts":{"time":i.to_string(),"meta":{"pad":"x".repeat(280)}},"bin":"sync","mode":"sync"}));
         }
     }
-    let victim = match r / 5 % 14 {
+    let victim = match r / 5 % 15 {
         0 | 1 => victim_write(rng, true, 0, len0, 0),
         2 => victim_write(rng, false, 0, len0, 0),
         3 => json!({"k":"api","op":"read","key":0}),
@@ -1368,6 +1373,10 @@ fn gen_c13(rng: &mut Rng, r: u64) -> Value {
         10 => json!({"k":"api","op":"list"}),
         11 => json!({"k":"api","op":"metadata","key":0}),
         12 => json!({"k":"api","op":"remove_opts","fully":true,"key":0}),
+        13 => {
+            prelude.push(json!({"k":"env","act":"write_file","path":"$T/linked","val":2}));
+            json!({"k":"api","op":"link_to","entry":*rng.pick(&["fn","open"]),"key":2,"target":"$T/linked"})
+        }
         _ => victim_write(rng, true, 2, 7, 0),
     };
     let mut v = victim;
